@@ -423,24 +423,7 @@ theorem tie_src_core_DrandDaemon_LoadBeaconFromStore : Gen.ScriptsC13.core_Drand
   "}"
 ] := rfl
 
-/-- two reviewed texts: the one before and the one after `fix: key files are replaced atomically (write to a temporary
-file, then rename)`; which of the two the tree under test has is `Gen.keySaveVariant` (tie_keySave, C13) -/
 theorem tie_src_key_Save : Gen.ScriptsC13.key_Save = [
-  "func Save(filePath string, t Tomler, secure bool) error {",
-  " var fd *os.File",
-  " var err error",
-  " if secure {",
-  "  fd, err = fs.CreateSecureFile(filePath)",
-  " } else {",
-  "  fd, err = os.Create(filePath)",
-  " }",
-  " if err != nil {",
-  "  return fmt.Errorf(\"config: can't save %s to %s: %w\", reflect.TypeOf(t).String(), filePath, err)",
-  " }",
-  " defer fd.Close()",
-  " return toml.NewEncoder(fd).Encode(t.TOML())",
-  "}"
-] ∨ Gen.ScriptsC13.key_Save = [
   "func Save(filePath string, t Tomler, secure bool) error {",
   " tmpPath := filePath + tmpExtension",
   " var fd *os.File",
@@ -469,8 +452,7 @@ theorem tie_src_key_Save : Gen.ScriptsC13.key_Save = [
   " }",
   " return err",
   "}"
-] := by
-  first | exact Or.inl rfl | exact Or.inr rfl
+] := rfl
 
 theorem tie_src_key_Load : Gen.ScriptsC13.key_Load = [
   "func Load(filePath string, t Tomler) error {",
@@ -523,19 +505,7 @@ theorem tie_src_key_fileStore_LoadShare : Gen.ScriptsC13.key_fileStore_LoadShare
   "}"
 ] := rfl
 
-/-- two reviewed texts: the one before and the one after `fix: key files are replaced atomically (write to a temporary
-file, then rename)`; which of the two the tree under test has is `Gen.keySaveVariant` (tie_keySave, C13) -/
 theorem tie_src_key_fileStore_Reset : Gen.ScriptsC13.key_fileStore_Reset = [
-  "func (f *fileStore) Reset() error {",
-  " if err := Delete(f.shareFile); err != nil {",
-  "  return fmt.Errorf(\"drand: err deleting share file: %w\", err)",
-  " }",
-  " if err := Delete(f.groupFile); err != nil {",
-  "  return fmt.Errorf(\"drand: err deleting group file: %w\", err)",
-  " }",
-  " return nil",
-  "}"
-] ∨ Gen.ScriptsC13.key_fileStore_Reset = [
   "func (f *fileStore) Reset() error {",
   " if err := Delete(f.shareFile); err != nil {",
   "  return fmt.Errorf(\"drand: err deleting share file: %w\", err)",
@@ -551,8 +521,7 @@ theorem tie_src_key_fileStore_Reset : Gen.ScriptsC13.key_fileStore_Reset = [
   " }",
   " return nil",
   "}"
-] := by
-  first | exact Or.inl rfl | exact Or.inr rfl
+] := rfl
 
 theorem tie_src_fs_CreateSecureFile : Gen.ScriptsC13.fs_CreateSecureFile = [
   "func CreateSecureFile(file string) (*os.File, error) {",
